@@ -1,6 +1,7 @@
 (** C25 — correspondence cases: a delivery order with what the Go node returned. *)
 From Coq Require Import List ZArith NArith Bool.
-From C33 Require Import Lib.Harness C25.Spec.
+From C33 Require Import Lib.Harness C25.Spec C25.SpecExt.
+From C33 Require Export C25.ModelExt.
 From C33 Require Export C25.Model.   (* case files use [mkB] *)
 Import ListNotations.
 Open Scope Z_scope.
@@ -9,12 +10,33 @@ Open Scope Z_scope.
     back afterwards, the tip hash and the total difficulty stored for it *)
 Definition stepobs : Type := (bool * bool * N * N * Z)%type.
 
+(** events of an extended run.  Unconnected blocks have hashes >= [junk_base]
+    and are never part of [T]: block [j] is [mkB j (j + 1000000) 9000 1]. *)
+Inductive cev :=
+| CD (now : Z) (id : N)                      (* ProcessBlock of block [id] at receive time [now] *)
+| CF (h : Z) (id : N)                        (* EventSnowmanAcceptBlk: height, hash *)
+| CJ (now : Z) (id0 : N) (n : N).            (* ProcessBlock of n unconnected blocks id0, id0+1, ..; every one came back (false, true, nil) *)
+
+(** per event: ProcessBlock's (isMainChain, isOrphan, error class) (false, false,
+    0 for CF; false, true, 0 for CJ) and, read back afterwards: tip hash, its
+    stored total difficulty, the finalizer's height and hash *)
+Definition xobs : Type := (bool * bool * N * N * Z * Z * N)%type.
+
 Inductive case :=
 | CRun (fin : Z) (T : list block)            (* the tree, root first; hashes numbered *)
        (order : list N)                      (* delivered hashes, in order (duplicates allowed) *)
        (obs : list stepobs)
        (fmain : list N)                      (* hash at every height 0..tip after the run *)
-       (txok : bool).                        (* GetTx finds a delivered block's transaction iff the block is on the best chain *)
+       (txok : bool)                         (* GetTx finds a delivered block's transaction iff the block is on the best chain *)
+(** runs against the orphan-pool limits and a moving finalizer (ModelExt.v) *)
+| CExt (cap ttl : Z) (ebc : bool)            (* maxOrphanBlocks, orphan expiry in time units, EnableBestBlockCmp *)
+       (cmps : list (N * N))                 (* (new block, tip) pairs for which the consensus module prefers the new block *)
+       (T : list block)
+       (evs : list cev)
+       (obs : list xobs)                     (* one per event *)
+       (fmain : list N)
+       (pool : list (N * N))                 (* hash ranges (first, last) that IsKnownOrphan reports at the end, ascending *)
+       (txok : bool).
 
 Definition errc_code (e : errc) : N :=
   match e with ENone => 0 | EExist => 1 | EParent => 2 | EHeight => 3 | ETd => 4 | EFuel => 5 end%N.
@@ -48,10 +70,146 @@ Definition model_ok (fin : Z) (T : list block) (order : list N) (obs : list step
       end
   end.
 
+(** * extended runs *)
+
+Definition junk_base : N := 100000.
+Definition junk_block (id : N) : block := mkB id (id + 1000000) 9000 1.
+Definition ev_block (T : list block) (id : N) : option block :=
+  if (junk_base <=? id)%N then Some (junk_block id) else find_block id T.
+
+Definition fin_id (s : xstate) : N := match xfh s with Some f => f | None => nilid end.
+
+(** what is read back after an event *)
+Definition readback_ok (s : xstate) (o : xobs) : bool :=
+  match o with
+  | (_, _, _, tp, ttd, fh, fid) =>
+      N.eqb (xtip s) tp && (xtip_td s =? ttd) && (xfin s =? fh) && N.eqb (fin_id s) fid
+  end.
+
+Definition result_ok (mo : xout) (o : xobs) : bool :=
+  match o with
+  | (im, io, ec, _, _, _, _) =>
+      Bool.eqb (o_main mo) im && Bool.eqb (o_orph mo) io && N.eqb (errc_code (o_err mo)) ec
+  end.
+
+(** n unconnected blocks in a row: each must come back as an orphan without error *)
+Fixpoint junk_run (P : params) (n : nat) (now : Z) (id : N) (a : acc) : option acc :=
+  match n with
+  | O => Some a
+  | S k =>
+      match xstep_acc_o P a (Dl now (junk_block id)) with
+      | (a', mo) =>
+          if negb (o_main mo) && o_orph mo && errc_eqb (o_err mo) ENone
+          then junk_run P k now (id + 1)%N a' else None
+      end
+  end.
+
+Definition acc_state (a : acc) : xstate := fst (fst a).
+
+(** fold the extended model (with the tracked guards) over the events *)
+Fixpoint agree_x (P : params) (T : list block) (a : acc) (evs : list cev) (obs : list xobs) : option acc :=
+  match evs, obs with
+  | [], [] => Some a
+  | e :: evs', o :: obs' =>
+      let next :=
+        match e with
+        | CD now id =>
+            match ev_block T id with
+            | Some b => match xstep_acc_o P a (Dl now b) with
+                        | (a', mo) => if result_ok mo o then Some a' else None
+                        end
+            | None => None
+            end
+        | CF h id =>
+            match xstep_acc_o P a (Fz h id) with (a', mo) => if result_ok mo o then Some a' else None end
+        | CJ now id0 n =>
+            if (junk_base <=? id0)%N && result_ok (mkO false true ENone []) o
+            then junk_run P (N.to_nat n) now id0 a else None
+        end in
+      match next with
+      | Some a' => if readback_ok (acc_state a') o then agree_x P T a' evs' obs' else None
+      | None => None
+      end
+  | _, _ => None
+  end.
+
+Definition range_size (r : N * N) : Z := Z.of_N (snd r) - Z.of_N (fst r) + 1.
+Definition in_ranges (h : N) (rs : list (N * N)) : bool :=
+  existsb (fun r => (fst r <=? h)%N && (h <=? snd r)%N) rs.
+
+(** the pool at the end: the model's pooled hashes are exactly the reported ranges *)
+Definition pool_ok (s : xstate) (pool : list (N * N)) : bool :=
+  forallb (fun r => (fst r <=? snd r)%N) pool &&
+  (Z.of_nat (length (xorph s)) =? fold_left (fun n r => n + range_size r) pool 0) &&
+  forallb (fun e => in_ranges (bid (fst e)) pool) (xorph s).
+
+Definition params_of (cap ttl : Z) (ebc : bool) (cmps : list (N * N)) : params :=
+  mkP cap ttl ebc (fun n t => existsb (fun p => N.eqb (fst p) n && N.eqb (snd p) t) cmps).
+
+Definition model_ok_x (P : params) (T : list block) (evs : list cev) (obs : list xobs)
+                      (fmain : list N) (pool : list (N * N)) : option acc :=
+  match T with
+  | [] => None
+  | g :: _ =>
+      match agree_x P T (xinit g 0, [], true) evs obs with
+      | Some a =>
+          if list_eqb N.eqb (rev (xmain (acc_state a))) fmain && pool_ok (acc_state a) pool
+          then Some a else None
+      | None => None
+      end
+  end.
+
+Definition tree_ids (evs : list cev) : list N :=
+  flat_map (fun e => match e with
+                     | CD _ id => if (junk_base <=? id)%N then [] else [id]
+                     | _ => []
+                     end) evs.
+
+Definition is_delivery (e : cev) : bool := match e with CF _ _ => false | _ => true end.
+
+Definition pobs_of (o : xobs) : pobs :=
+  match o with (_, _, _, tp, _, fh, fid) => (tp, fh, fid) end.
+
+(** the known finding's signature at the first event after which a formerly
+    chosen block is off the best chain *)
+Definition reset_at (T : list block) (g : N) (k : N) (evs : list cev) (obs : list xobs) : bool :=
+  let i := N.to_nat k in
+  let prev := match i with O => (g, 0, nilid) | S j => pobs_of (nth j obs (false, false, 0%N, g, 0, 0, nilid)) end in
+  match nth_error evs i, nth_error obs i with
+  | Some e, Some o => reset_signature T (is_delivery e) prev (pobs_of o)
+  | _, _ => false
+  end.
+
 Definition check_case (c : case) : verdict :=
   match c with
   | CRun fin T order obs fmain txok =>
       let m := match model_ok fin T order obs fmain with Some _ => true | None => false end in
       let g := match T with g :: _ => [bid g] | [] => [] end in
       mk_verdict m (spec_ok fin T (g ++ order) (rev fmain) && txok)
+  | CExt cap ttl ebc cmps T evs obs fmain pool txok =>
+      let P := params_of cap ttl ebc cmps in
+      let ma := model_ok_x P T evs obs fmain pool in
+      let m := match ma with Some _ => true | None => false end in
+      let gid := match T with g :: _ => bid g | [] => 0%N end in
+      let R := connected T (gid :: tree_ids evs) in
+      let Tc := map (fun e => fst (fst e)) R in
+      (* the theorem's guard, for the connected delivered blocks, from the inputs *)
+      let guard := match ma with
+                   | Some (_, held, ok) =>
+                       ok && forallb (fun b => N.eqb (bid b) gid || memN (bid b) held) Tc
+                   | None => false
+                   end in
+      let po := map pobs_of obs in
+      let '(fh, fid) := match rev po with (_, fh, fid) :: _ => (fh, fid) | [] => (0, nilid) end in
+      let s_linked := linked R (rev fmain) in
+      let s_chain := all_on_chain T po in
+      let s_conv := converges_x guard fh fid R (rev fmain) in
+      let left := first_left T [] 0%N po in
+      let s_stays := match left with None => true | Some _ => false end in
+      let others := s_linked && s_chain && s_conv && txok in
+      let kf := match left with
+                | Some k => if others && reset_at T gid k evs obs then 1%N else 0%N
+                | None => 0%N
+                end in
+      (m, others && s_stays, kf)
   end.
